@@ -9,8 +9,8 @@
    Specification (what the server computes): [murmur3_spec] = Cassandra's
    MurmurHash.hash3_x64_128 (seed 0, first long), [j_normalize], [cdc_token_spec],
    [spec_serialized_key], [spec_components], [spec_token]. *)
-From SV Require Import Base.Prelude Base.Bytes Model.Murmur Model.PartKey.
-From SV Require Import Proofs.Murmur_proofs Proofs.PartKey_proofs.
+From SV Require Import Base.Prelude Base.Bytes Model.Murmur Model.PartKey Model.PartName.
+From SV Require Import Proofs.Murmur_proofs Proofs.PartKey_proofs Proofs.PartName_proofs.
 Open Scope N_scope.
 
 (* ---- the streaming hashers ------------------------------------------------------------- *)
@@ -33,6 +33,37 @@ Theorem C03_cdc : forall key : bytes,
   ((8 <= length key)%nat -> cdc_token_spec key = j_normalize (dec_signed (firstn 8 key))) /\
   ((length key < 8)%nat -> cdc_token_spec key = (- 2 ^ 63)%Z).
 Proof. exact (fun key => conj (cdc_token_long key) (cdc_token_short key)). Qed.
+
+(* a CDC stream id is 16 bytes; for such keys the token is the normalised big-endian i64 of the
+   first 8 bytes under every reading of the CDC partitioner (see docs/C03.md, "CDC") *)
+Theorem C03_cdc_stream_id : forall chunks : list bytes,
+  length (concat chunks) = 16%nat ->
+  cdc_finish (fold_left cdc_write chunks cdc_init) =
+  j_normalize (dec_signed (firstn 8 (concat chunks))).
+Proof. exact cdc_chunking_stream_id. Qed.
+
+(* partitioner selection (PartitionerName::from_str and its use in Session::prepare /
+   ClusterState::compute_token): a table naming a class that ends in "CDCPartitioner" is
+   hashed by the CDC hasher, one naming "...Murmur3Partitioner" by the Murmur3 hasher *)
+Theorem C03_from_str_cdc : forall s,
+  ends_with s cdc_suffix = true -> partitioner_from_str s = Some PCdc.
+Proof. exact from_str_cdc. Qed.
+
+Theorem C03_from_str_murmur3 : forall s,
+  ends_with s murmur3_suffix = true -> partitioner_from_str s = Some PMurmur3.
+Proof. exact from_str_murmur3. Qed.
+
+(* "tables using the CDC partitioner get the CDC token", for every chunking of the key *)
+Theorem C03_cdc_table : forall s (chunks : list bytes),
+  ends_with s cdc_suffix = true ->
+  feed (table_partitioner (Some s)) chunks = cdc_token_spec (concat chunks).
+Proof. exact cdc_table_token. Qed.
+
+Theorem C03_murmur3_table : forall s (chunks : list bytes),
+  ends_with s murmur3_suffix = true ->
+  (Z.of_nat (length (concat chunks)) < 2 ^ 63)%Z ->
+  feed (table_partitioner (Some s)) chunks = murmur3_token_spec (concat chunks).
+Proof. exact murmur3_table_token. Qed.
 
 (* the same through PartitionerName / PartitionerHasherAny, for both partitioners *)
 Theorem C03_feed : forall p (chunks : list bytes),
@@ -116,11 +147,11 @@ Theorem C03_marker_order : forall p ncols1 wire1 values1 ncols2 wire2 values2,
 Proof. exact marker_order_irrelevant. Qed.
 
 (* the executable predicates evaluated by the correspondence driver on the implementation's
-   outputs: [key_okb] decides (soundly) the quantifier, and the model itself always satisfies
+   outputs: [key_okb] decides the quantifier exactly, and the model itself always satisfies
    the property predicates *)
-Theorem C03_key_okb_sound : forall ncols wire values,
-  key_okb ncols wire values = true -> key_ok ncols wire values.
-Proof. exact key_okb_sound. Qed.
+Theorem C03_key_okb_iff : forall ncols wire values,
+  key_okb ncols wire values = true <-> key_ok ncols wire values.
+Proof. exact key_okb_iff. Qed.
 
 Theorem C03_prop_model : forall p ncols wire values,
   (Z.of_nat (length (spec_serialized_key (spec_components wire values))) < 2 ^ 63)%Z ->
@@ -164,6 +195,66 @@ Example C03_ex_vectors_cdc :
   cdc_token_spec v_kremowki = 7742362231512463211%Z.
 Proof. repeat split; vm_compute; reflexivity. Qed.
 
+(* published vectors of the standard MurmurHash3_x64_128 (seed 0) on ASCII input, where
+   Cassandra's variant coincides with it: mmh3.hash64("foo"), mmh3.hash64("hello"), and the
+   digest e34bbc7bbc071b6c7a433ca9c49a9347 of the 43-byte pangram (two blocks + an 11-byte
+   tail, i.e. both tail halves) *)
+Definition v_foo : bytes := [0x66; 0x6f; 0x6f].
+Definition v_hello : bytes := [0x68; 0x65; 0x6c; 0x6c; 0x6f].
+Definition v_fox : bytes :=
+  [0x54; 0x68; 0x65; 0x20; 0x71; 0x75; 0x69; 0x63; 0x6b; 0x20; 0x62; 0x72; 0x6f; 0x77; 0x6e; 0x20;
+   0x66; 0x6f; 0x78; 0x20; 0x6a; 0x75; 0x6d; 0x70; 0x73; 0x20; 0x6f; 0x76; 0x65; 0x72; 0x20; 0x74;
+   0x68; 0x65; 0x20; 0x6c; 0x61; 0x7a; 0x79; 0x20; 0x64; 0x6f; 0x67].
+Example C03_ex_published :
+  hash3_x64_128 v_foo = ((-2129773440516405919)%Z, 9128664383759220103%Z) /\
+  hash3_x64_128 v_hello = ((-3758069500696749310)%Z, 6565844092913065241%Z) /\
+  hash3_x64_128 v_fox = (jlong 0xe34bbc7bbc071b6c, 0x7a433ca9c49a9347%Z).
+Proof. repeat split; vm_compute; reflexivity. Qed.
+
+(* vectors with bytes >= 0x80 in BOTH tail halves (k1: offsets 0..7, k2: offsets 8..14) and in
+   whole blocks, produced by a JVM running the Java source of MurmurHash.hash3_x64_128 and,
+   independently, by the unsigned reference in checks/c03.py (both halves of the hash); the
+   standard unsigned-tail function gives different values on all four *)
+Definition v_hi15 : bytes := map (fun i => 128 + i) (nrange 0 15).
+Definition v_mix31 : bytes := map (fun i => (i * 37 + 131) mod 256) (nrange 0 31).
+Definition v_ff47 : bytes := repeat 255 47.
+Definition v_desc25 : bytes := map (fun i => (255 + 256 * 3 - 3 * i) mod 256) (nrange 9 25).
+Example C03_ex_signed_tail_spec :
+  hash3_x64_128 v_hi15 = (63099782945186636%Z, 2182381563788159242%Z) /\
+  hash3_x64_128 v_mix31 = ((-2660492343151653474)%Z, 5064651862250545885%Z) /\
+  hash3_x64_128 v_ff47 = (412418349843382352%Z, 3358633513818683839%Z) /\
+  hash3_x64_128 v_desc25 = (4712412279767989472%Z, (-2463441715072205894)%Z).
+Proof. repeat split; vm_compute; reflexivity. Qed.
+Example C03_ex_signed_tail_model :
+  hash_one PMurmur3 v_hi15 = 63099782945186636%Z /\
+  hash_one PMurmur3 v_mix31 = (-2660492343151653474)%Z /\
+  hash_one PMurmur3 v_ff47 = 412418349843382352%Z /\
+  hash_one PMurmur3 v_desc25 = 4712412279767989472%Z.
+Proof. repeat split; vm_compute; reflexivity. Qed.
+
+(* the normalisation and the CDC rule on concrete values *)
+Example C03_ex_normalize :
+  j_normalize (- 2 ^ 63) = (2 ^ 63 - 1)%Z /\ j_normalize (- 2 ^ 63 + 1) = (- 2 ^ 63 + 1)%Z /\
+  token_new (- 2 ^ 63) = (2 ^ 63 - 1)%Z /\ j_normalize 5 = 5%Z.
+Proof. repeat split; vm_compute; reflexivity. Qed.
+Example C03_ex_cdc_spec :
+  cdc_token_spec [1; 2; 3; 4; 5; 6; 7] = (- 2 ^ 63)%Z /\
+  cdc_token_spec [0x80; 0; 0; 0; 0; 0; 0; 0; 9; 9] = (2 ^ 63 - 1)%Z /\
+  cdc_token_spec [0xff; 0xff; 0xff; 0xff; 0xff; 0xff; 0xff; 0xfe; 1; 2; 3; 4; 5; 6; 7; 8] = (-2)%Z /\
+  cdc_token_spec [0; 0; 0; 0; 0; 0; 1; 0] = 256%Z.
+Proof. repeat split; vm_compute; reflexivity. Qed.
+
+(* partitioner selection on the class names a table can carry *)
+Example C03_ex_partitioner_names :
+  partitioner_from_str murmur3_class = Some PMurmur3 /\
+  partitioner_from_str cdc_class = Some PCdc /\
+  partitioner_from_str random_class = None /\
+  table_partitioner (Some cdc_class) = PCdc /\
+  table_partitioner (Some random_class) = PMurmur3 /\ table_partitioner None = PMurmur3 /\
+  ends_with cdc_class cdc_suffix = true /\ ends_with cdc_suffix cdc_class = false /\
+  ends_with murmur3_class cdc_suffix = false.
+Proof. repeat split; vm_compute; reflexivity. Qed.
+
 (* a 41-byte stream with bytes >= 0x80 fed in chunks that straddle both 16-byte boundaries *)
 Definition ex_stream : bytes := map (fun i => (i * 37 + 131) mod 256) (nrange 0 41).
 Example C03_ex_chunking :
@@ -198,6 +289,39 @@ Example C03_ex_marker_order :
   = ps_calculate_token PMurmur3 5 ex_wire ex_values.
 Proof. split; [apply key_okb_sound|]; vm_compute; reflexivity. Qed.
 
+(* the serialized key and the property predicates on concrete inputs, rejecting ones included *)
+Example C03_ex_serialized_key :
+  spec_serialized_key [[7; 8]] = [7; 8] /\
+  spec_serialized_key [[7; 8]; []] = [0; 2; 7; 8; 0; 0; 0; 0] /\
+  spec_serialized_key [] = [] /\
+  spec_components ex_wire ex_values = [[1; 2; 3; 4; 5]; [67]; [0; 0; 0; 0; 0; 0; 0; 89]].
+Proof. repeat split; vm_compute; reflexivity. Qed.
+Example C03_ex_key_okb :
+  key_okb 5 ex_wire ex_values = true /\
+  key_okb 5 [4; 0; 4] ex_values = false /\          (* duplicate pk index *)
+  key_okb 5 [4; 1; 3] ex_values = false /\          (* key marker bound to null *)
+  key_okb 5 [4; 0; 5] ex_values = false /\          (* pk index beyond the markers *)
+  key_okb 4 ex_wire ex_values = false.               (* pk index beyond the column specs *)
+Proof. repeat split; vm_compute; reflexivity. Qed.
+Example C03_ex_prop_rejects :
+  prop_token_ok PMurmur3 5 ex_wire ex_values (Ok (Some (-2929013484768013632)%Z)) = true /\
+  prop_token_ok PMurmur3 5 ex_wire ex_values (Ok (Some (-2929013484768013631)%Z)) = false /\
+  prop_token_ok PMurmur3 5 ex_wire ex_values (Ok None) = false /\
+  prop_token_ok PMurmur3 5 ex_wire ex_values (Err (ValueTooLong 70000)) = false /\
+  prop_token_ok PMurmur3 5 ex_wire ex_values (Err RustPanic) = false /\
+  (* the token of the components in MARKER order instead of partition-key order is refused *)
+  prop_token_ok PMurmur3 5 ex_wire ex_values
+    (Ok (Some (token_spec PMurmur3 (spec_serialized_key
+                 [[67]; [0; 0; 0; 0; 0; 0; 0; 89]; [1; 2; 3; 4; 5]])))) = false /\
+  prop_token_ok PCdc 5 ex_wire ex_values (Ok (Some (-2929013484768013632)%Z)) = false /\
+  prop_pk_token_ok PMurmur3 [RValue [1]; RValue [2]] (Ok 1%Z) = false /\
+  prop_pk_token_ok PMurmur3 [RValue [1]; RValue [2]]
+    (Ok (token_spec PMurmur3 [0; 1; 1; 0; 0; 1; 2; 0])) = true /\
+  prop_pk_token_ok PMurmur3 [RValue [1]; RValue (repeat 0 (N.to_nat 65536))] (Ok 1%Z) = false /\
+  prop_pk_token_ok PMurmur3 [RValue [1]; RValue (repeat 0 (N.to_nat 65536))]
+    (Err (ValueTooLong 65536)) = true.
+Proof. repeat split; vm_compute; reflexivity. Qed.
+
 (* an over-long component of a composite key is refused *)
 Example C03_ex_too_long :
   ps_calculate_token PMurmur3 2 [1; 0] [RValue [1]; RValue (repeat 0 (N.to_nat 65536))]
@@ -207,6 +331,11 @@ Proof. vm_compute. reflexivity. Qed.
 Print Assumptions C03_chunking.
 Print Assumptions C03_cdc_chunking.
 Print Assumptions C03_cdc.
+Print Assumptions C03_cdc_stream_id.
+Print Assumptions C03_from_str_cdc.
+Print Assumptions C03_from_str_murmur3.
+Print Assumptions C03_cdc_table.
+Print Assumptions C03_murmur3_table.
 Print Assumptions C03_feed.
 Print Assumptions C03_hash_one.
 Print Assumptions C03_token_range.
@@ -218,6 +347,6 @@ Print Assumptions C03_errors.
 Print Assumptions C03_token_preserialized.
 Print Assumptions C03_chunk_independent.
 Print Assumptions C03_marker_order.
-Print Assumptions C03_key_okb_sound.
+Print Assumptions C03_key_okb_iff.
 Print Assumptions C03_prop_model.
 Print Assumptions C03_prop_pk_model.
